@@ -157,6 +157,9 @@ class Grammar:
                     yield ((t[0], t[1][:1]), ("idxv", x, "0:1"))
                     yield (t[1][0], ("idxv", x, str(len(t[1]))))
                     yield (t[1][0], ("idxv", x, str(len(t[1]) + 1)))
+                    yield (t[1][0], ("idxw", x, "-" + str(len(t[1]) + 1)))
+                    yield (t[1][0], ("idxw", x, "'k'"))
+                    yield (t[1][0], ("idxw", x, "1.5"))
                 elif isinstance(t, tuple) and t[0] == "Dic":
                     yield (t[1][0][1], ("idxv", x, "'zz'"))
                     yield (t[1][0][1], ("dattr", x, "zz"))
@@ -365,7 +368,7 @@ def binder_info(term, nctx=0):
 
 
 _TAGS = {"ds", "var", "attr", "meth", "const", "bin", "neg", "not", "cmp", "bool", "ifexp", "op",
-         "count", "first", "app", "tup", "lst", "dic", "idx", "key", "dattr", "idxv", "idxe", "app2", "keyv", "app0"}
+         "count", "first", "app", "tup", "lst", "dic", "idx", "key", "dattr", "idxv", "idxe", "app2", "keyv", "app0", "idxw"}
 
 
 def namings(term, pool, ctx_names=()):
@@ -471,7 +474,7 @@ def render(term, names, ctx_names=()):
             return f"{r(t[1], stack)}[{t[2]!r}]"
         if tag == "dattr":
             return f"{r(t[1], stack)}.{t[2]}"
-        if tag in ("idxv", "keyv"):
+        if tag in ("idxv", "keyv", "idxw"):
             return f"{r(t[1], stack)}[{t[2]}]"
         if tag == "idxe":
             return f"{r(t[1], stack)}[{r(t[2], stack)}]"
